@@ -33,12 +33,12 @@ package tex
 //
 //@ func JsUnixTime.UnmarshalJSON
 //@   requires token(b) && i != nil && ErrInvalidInt64Js != nil
-//@   ensures #exact result == nil ==> quoted(b) && isint(inner(b))
+//@   ensures #exact result == nil ==> quoted(b) && isint(inner(b)) && spec_unix(time.Time(deref(i))) == int64(ival(inner(b)))
 //@   modifies JsUnixTime.wall, JsUnixTime.ext, JsUnixTime.loc
 //
 //@ func JsNanoTime.UnmarshalJSON
 //@   requires token(b) && i != nil && ErrInvalidInt64Js != nil
-//@   ensures #exact result == nil ==> quoted(b) && isint(inner(b))
+//@   ensures #exact result == nil ==> quoted(b) && isint(inner(b)) && spec_unixnano(time.Time(deref(i))) == int64(ival(inner(b)))
 //@   modifies JsNanoTime.wall, JsNanoTime.ext, JsNanoTime.loc
 //
 //@ func Duration.UnmarshalJSON
